@@ -22,7 +22,9 @@ package cloudprovider
 //@   ensures  [gauges] ccp.statsCachePositive == wrapu64(old(ccp.statsCachePositive) + posOf(true, ccp.cache[info.IP].instance) - old(posOf(info.IP in ccp.cache, ccp.cache[info.IP].instance)))
 //@   ensures  [gauges] ccp.statsCacheNegative == wrapu64(old(ccp.statsCacheNegative) + negOf(true, ccp.cache[info.IP].instance) - old(negOf(info.IP in ccp.cache, ccp.cache[info.IP].instance)))
 //@   ensures  forall ip gostatsd.Source :: ip != info.IP ==> (ip in ccp.cache) == old(ip in ccp.cache) && ccp.cache[ip] == old(ccp.cache[ip])
+//@   ensures  [idle] old(info.IP in ccp.cache) ==> ccp.cache[info.IP].lastAccessNano == old(ccp.cache[info.IP].lastAccessNano)
 //@   ensures  [answer] len(ccp.toReturnInfo) == old(len(ccp.toReturnInfo)) + 1 && ccp.toReturnInfo[len(ccp.toReturnInfo) - 1] == info
+//@   ensures  [answer] off(ccp.toReturnInfo) == old(off(ccp.toReturnInfo)) && (forall k int :: off(ccp.toReturnInfo) <= k && k < off(ccp.toReturnInfo) + old(len(ccp.toReturnInfo)) ==> at(ccp.toReturnInfo, k) == old(at(ccp.toReturnInfo, k)))
 //@   modifies ccp.statsCachePositive, ccp.statsCacheNegative, ccp.statsCacheRefreshPositive, ccp.statsCacheRefreshNegative, ccp.cache[*], ccp.toReturnInfo, ccp.toReturnInfo[*]
 
 // Peek: a hit exactly for the sources in the cache, answering with the cached instance.
@@ -42,12 +44,44 @@ package cloudprovider
 //@   loop 1 invariant sent(ld.infoSink) == old(sent(ld.infoSink)) + rangeindex + 1 && ld.infoSink == old(ld.infoSink)
 //@   modifies everything
 
-// doRefresh: evicts or re-queues entries; the cache keeps a holder for every remaining entry and
-// nothing is added to it.
+// doRefresh: an entry is evicted exactly when it was last used more than the idle period before the tick; an
+// entry that stays and is past its expiry time is queued for another lookup, exactly once, after the sources
+// already queued; nothing is added to the cache and surviving entries keep their holder.
+//@ pred idleH(h *instanceHolder, idle time.Duration, now int64) := wrap64(now - h.lastAccessNano) > idle
 //@ func (*CachedCloudProvider).doRefresh
 //@   requires CacheOK(ccp)
 //@   ensures  CacheOK(ccp) && ccp.cache == old(ccp.cache)
 //@   ensures  forall ip gostatsd.Source :: ip in ccp.cache ==> old(ip in ccp.cache) && ccp.cache[ip] == old(ccp.cache[ip])
+//@   ensures  [evict] forall ip gostatsd.Source :: old(ip in ccp.cache) ==> (ip in ccp.cache) == !idleH(old(ccp.cache[ip]), ccp.cacheOpts.CacheEvictAfterIdlePeriod, unixNano(t))
+//@   ensures  [requeue] len(ccp.toLookupIPs) >= old(len(ccp.toLookupIPs)) && (forall i int :: 0 <= i && i < old(len(ccp.toLookupIPs)) ==> ccp.toLookupIPs[i] == old(ccp.toLookupIPs[i]))
+//@   ensures  [requeue] forall i int, ip gostatsd.Source :: old(len(ccp.toLookupIPs)) <= i && i < len(ccp.toLookupIPs) && ip == ccp.toLookupIPs[i] ==> old(ip in ccp.cache) && !idleH(old(ccp.cache[ip]), ccp.cacheOpts.CacheEvictAfterIdlePeriod, unixNano(t)) && nanos(t) > nanos(old(ccp.cache[ip]).expires)
+//@   ensures  [requeue] forall ip gostatsd.Source :: old(ip in ccp.cache) && !idleH(old(ccp.cache[ip]), ccp.cacheOpts.CacheEvictAfterIdlePeriod, unixNano(t)) && nanos(t) > nanos(old(ccp.cache[ip]).expires) ==> (exists i int :: old(len(ccp.toLookupIPs)) <= i && i < len(ccp.toLookupIPs) && ccp.toLookupIPs[i] == ip)
 //@   loop 1 invariant CacheOK(ccp) && ccp.cache == old(ccp.cache) && (forall ip gostatsd.Source :: (ip in ccp.cache) == old(ip in ccp.cache) && ccp.cache[ip] == old(ccp.cache[ip]))
+//@   loop 1 invariant (base(toDelete) == 0 || (loopFresh(base(toDelete)) && base(toDelete) != base(ccp.toLookupIPs))) && now == unixNano(t) && idleNano == ccp.cacheOpts.CacheEvictAfterIdlePeriod
+//@   loop 1 invariant forall i int :: 0 <= i && i < len(toDelete) ==> (toDelete[i] in ccp.cache) && visited(1)[toDelete[i]] && idleH(ccp.cache[toDelete[i]], idleNano, now)
+//@   loop 1 invariant forall ip gostatsd.Source :: visited(1)[ip] && idleH(ccp.cache[ip], idleNano, now) ==> (exists i int :: 0 <= i && i < len(toDelete) && toDelete[i] == ip)
+//@   loop 1 invariant len(ccp.toLookupIPs) >= old(len(ccp.toLookupIPs)) && (forall i int :: 0 <= i && i < old(len(ccp.toLookupIPs)) ==> ccp.toLookupIPs[i] == old(ccp.toLookupIPs[i]))
+//@   loop 1 invariant forall i int :: old(len(ccp.toLookupIPs)) <= i && i < len(ccp.toLookupIPs) ==> (ccp.toLookupIPs[i] in ccp.cache) && visited(1)[ccp.toLookupIPs[i]] && !idleH(ccp.cache[ccp.toLookupIPs[i]], idleNano, now) && nanos(t) > nanos(ccp.cache[ccp.toLookupIPs[i]].expires)
+//@   loop 1 invariant forall ip gostatsd.Source :: visited(1)[ip] && !idleH(ccp.cache[ip], idleNano, now) && nanos(t) > nanos(ccp.cache[ip].expires) ==> (exists i int :: old(len(ccp.toLookupIPs)) <= i && i < len(ccp.toLookupIPs) && ccp.toLookupIPs[i] == ip)
 //@   loop 2 invariant CacheOK(ccp) && ccp.cache == old(ccp.cache) && (forall ip gostatsd.Source :: ip in ccp.cache ==> old(ip in ccp.cache) && ccp.cache[ip] == old(ccp.cache[ip]))
+//@   loop 2 invariant forall ip gostatsd.Source :: old(ip in ccp.cache) ==> (ip in ccp.cache) == !(exists i int :: 0 <= i && i <= rangeindex && toDelete[i] == ip)
 //@   modifies ccp.statsCachePositive, ccp.statsCacheNegative, ccp.cache[*], ccp.toLookupIPs, ccp.toLookupIPs[*], allElems(gostatsd.Source)
+
+// Run: the goroutine that owns the cache. Every answer appended to ccp.toReturnInfo by handleInstanceInfo is handed
+// to the consumer exactly once: per iteration of the loop, the multiset {queued answers} + {the answer waiting to
+// be sent} + {the answer sent in this iteration} equals what it was at the head of the iteration plus the answer
+// handled in this iteration (two-state clause; cntInfo counts occurrences in the queue, specs/c12_count.gvs).
+// The same for the sources waiting to be looked up again.
+//@ func (*CachedCloudProvider).emit
+//@   requires ccp != nil && statser != nil
+
+//@ func (*CachedCloudProvider).Run
+//@   recvsite assumes [stats.Statser] delivered ==> (val != nil)
+//@   requires CacheOK(ccp) && ccp.infoSinkSource != nil && ccp.ipSinkSource != nil && ccp.infoSinkSource != ccp.ipSinkSource
+//@   loop 1 invariant CacheOK(ccp) && ccp.infoSinkSource == old(ccp.infoSinkSource) && ccp.ipSinkSource == old(ccp.ipSinkSource)
+//@   loop 1 invariant (toReturnInfoC == nil || toReturnInfoC == ccp.infoSinkSource) && (toLookupC == nil || toLookupC == ccp.ipSinkSource)
+//@   loop 1 step sent(ccp.infoSinkSource) <= prev(sent(ccp.infoSinkSource)) + 1 && calls(handleInstanceInfo) <= prev(calls(handleInstanceInfo)) + 1
+//@   loop 1 step forall x gostatsd.InstanceInfo :: cntInfo(elems(ccp.toReturnInfo), off(ccp.toReturnInfo), len(ccp.toReturnInfo), x) + ite(toReturnInfoC != nil && toReturnInfo == x, 1, 0) + ite(sent(ccp.infoSinkSource) == prev(sent(ccp.infoSinkSource)) + 1 && lastsent(ccp.infoSinkSource) == x, 1, 0) == prev(cntInfo(elems(ccp.toReturnInfo), off(ccp.toReturnInfo), len(ccp.toReturnInfo), x)) + prev(ite(toReturnInfoC != nil && toReturnInfo == x, 1, 0)) + ite(calls(handleInstanceInfo) == prev(calls(handleInstanceInfo)) + 1 && lastreceived(ownInfoSource) == x, 1, 0)
+//@   loop 1 step sent(ccp.ipSinkSource) <= prev(sent(ccp.ipSinkSource)) + 1
+//@   loop 1 step forall x gostatsd.Source :: calls(doRefresh) == prev(calls(doRefresh)) ==> cntSrc(elems(ccp.toLookupIPs), off(ccp.toLookupIPs), len(ccp.toLookupIPs), x) + ite(toLookupC != nil && toLookupIP == x, 1, 0) + ite(sent(ccp.ipSinkSource) == prev(sent(ccp.ipSinkSource)) + 1 && lastsent(ccp.ipSinkSource) == x, 1, 0) == prev(cntSrc(elems(ccp.toLookupIPs), off(ccp.toLookupIPs), len(ccp.toLookupIPs), x)) + prev(ite(toLookupC != nil && toLookupIP == x, 1, 0))
+//@   modifies everything
